@@ -44,6 +44,8 @@ _BUILTIN = {
     'int': INT, 'bool': BOOL, 'None': NONE, 'float': FLOAT, 'Fraction': FRAC,
     'str': STR, 'Any': ANY, 'object': ANY,
     'numstr': ('numstr',),     # symbolic numeral spelling (pyvc/strings.py)
+    # concrete float sentinels (for fields documented as `int | float('inf')` etc.)
+    'PosInf': ('fconst', 'inf'), 'NegInf': ('fconst', '-inf'), 'FloatNaN': ('fconst', 'nan'),
 }
 
 
@@ -155,4 +157,6 @@ def show(t) -> str:
         return f'list[{show(t[1])}]'
     if k == 'opaque':
         return f'opaque<{t[1]}>'
+    if k == 'fconst':
+        return f'float({t[1]})'
     return k
